@@ -15,7 +15,7 @@ import (
 )
 
 func solverAnswers(bin string, args []string, script []byte) ([]string, []string) {
-	cmd := exec.Command("timeout", append([]string{"300", bin}, args...)...)
+	cmd := exec.Command("timeout", append([]string{"120", bin}, args...)...)
 	cmd.Stdin = bytes.NewReader(script)
 	out, _ := cmd.CombinedOutput()
 	var ans, errs []string
@@ -32,7 +32,7 @@ func solverAnswers(bin string, args []string, script []byte) ([]string, []string
 }
 
 // crossCheck explores harness entry of property id with one worker (at most maxPaths paths), logging the session.
-func crossCheck(id, entry string, maxPaths int) int {
+func crossCheck(id, entry string, maxPaths int, params map[string]int) int {
 	vd, rd := verifDir(), repoDir()
 	sb, err := os.ReadFile(filepath.Join(vd, "harness", id, "spec.json"))
 	if err != nil {
@@ -75,6 +75,11 @@ func crossCheck(id, entry string, maxPaths int) int {
 	for k, v := range h.Quick {
 		P.params[k] = v
 	}
+	// a smaller configuration of the same harness, if given: the point is to compare the solvers on the
+	// encoding, and every solver must be able to answer within the cap
+	for k, v := range params {
+		P.params[k] = v
+	}
 	P.solverKind = "z3-new"
 	fn := P.findFunc(pkgPath, entry)
 	if fn == nil {
@@ -115,12 +120,16 @@ func crossCheck(id, entry string, maxPaths int) int {
 			fails++
 		}
 		if len(ans) != len(ref) {
-			fmt.Printf("crosscheck %s/%s: %s answered %d queries, z3-new %d\n", id, entry, s[0], len(ans), len(ref))
-			fails++
-			continue
+			// a solver that runs into the time cap has answered a prefix of the session: the prefix is compared
+			// (slowness is not a disagreement); answering more than the reference would be one
+			fmt.Printf("crosscheck %s/%s: %s answered %d of %d queries within the time cap\n", id, entry, s[0], len(ans), len(ref))
+			if len(ans) > len(ref) {
+				fails++
+				continue
+			}
 		}
 		diff := 0
-		for i := range ref {
+		for i := range ans {
 			if ans[i] != ref[i] && ans[i] != "unknown" && ref[i] != "unknown" {
 				diff++
 			}
